@@ -3,7 +3,7 @@
 SPECIFICATION Spec
 CONSTANTS
   MaxBody = 2
-  Alphabet = {"print", "assertEq", "helper", "plain", "new", "noise"}
+  Alphabet = {"print", "assertEq", "helper", "thisHelper", "plain", "new", "noise"}
   AnnoKinds = {"T", "Targ", "I", "TI", "IT", "none", "Before"}
   HelperKinds = {"none", "empty", "assert"}
   PathKinds = {"flatTest", "flatTests", "flatProd", "flatSub", "mavenTest", "mavenOther", "mavenMain", "mavenRootOnly"}
